@@ -100,7 +100,7 @@ pub fn check_pair(p: Prof, a: &str, b: &str, ca: &Expect, cb: &Expect, st: &mut 
 }
 
 pub fn run(env: &Env, run: &Run) -> (Stats, Coverage) {
-    let sigma = sigma07();
+    let sigma = crate::sig::rotated(env, sigma07(), run.seed);
     let n = run.tier.pick(2, 3);
     let mut strs = strings(&sigma, n);
     // a deeper layer over the symbols that interact most (case x width x space x normalisation x error)
